@@ -94,7 +94,8 @@ struct World
     std::vector<std::vector<uint8_t> > bankImages;  // indexable stock of valid bank images
     std::vector<std::vector<uint8_t> > songImages;  // stock of valid songs
     uint64_t audioFrames;
-    World() : run(NULL), maxInst(3), audioFrames(0) {}
+    bool observeGlobalErrorString;   // opn2_errorString() is process-wide by contract, not an instance output: C14 leaves it out
+    World() : run(NULL), maxInst(3), audioFrames(0), observeGlobalErrorString(true) {}
     ~World() { closeAll(); }
     void closeAll()
     {
@@ -174,7 +175,7 @@ static ApiResult execApi(World &w, const Op &op)
         log.add((uint64_t)opn2_getNumChips(d)); log.add((uint64_t)opn2_getNumChipsObtained(d));
         log.add((uint64_t)opn2_getLfoEnabled(d)); log.add((uint64_t)opn2_getLfoFrequency(d)); log.add((uint64_t)opn2_getChipType(d));
         log.add((uint64_t)opn2_getAutoArpeggio(d)); log.add((uint64_t)opn2_getVolumeRangeModel(d)); log.add((uint64_t)opn2_getChannelAllocMode(d));
-        log.add(strlen(opn2_chipEmulatorName(d))); log.add(strlen(opn2_errorInfo(d))); log.add(strlen(opn2_errorString()));
+        log.add(strlen(opn2_chipEmulatorName(d))); log.add(strlen(opn2_errorInfo(d))); { const char *ge = opn2_errorString(); if(w.observeGlobalErrorString) log.add(strlen(ge)); }
         log.add(strlen(opn2_linkedLibraryVersion())); log.add(opn2_linkedVersion()->major); log.add(strlen(opn2_emulatorName()));
         log.add((uint64_t)opn2_getSongsCount(d)); log.add((uint64_t)opn2_atEnd(d)); log.add((uint64_t)opn2_trackCount(d));
         log.addDouble(opn2_positionTell(d)); log.addDouble(opn2_totalTimeLength(d)); log.addDouble(opn2_loopStartTime(d)); log.addDouble(opn2_loopEndTime(d));
